@@ -45,6 +45,8 @@ pub fn universe() -> Vec<UVal> {
         u("3.7", vec![Put(n(3.7))]),
         u("65", vec![Put(n(65.0))]),
         u("1e300", vec![Put(n(1e300))]),
+        u("1e-17", vec![Put(n(1e-17))]),
+        u("5e-324", vec![Put(n(5e-324))]),
         u("2^53", vec![Put(n(9007199254740992.0))]),
         u("NaN", vec![Put(bin(BinOp::Divide, n(0.0), n(0.0)))]),
         u("inf", vec![Put(bin(BinOp::Divide, n(1.0), n(0.0)))]),
